@@ -134,3 +134,91 @@ def kinds_seen(agg, kinds, reasons, what='ADD'):
 
 def sig_has(agg, *frags):
     return any(all(f in sg for f in frags) for sg in agg['sigs'])
+
+
+# --------------------------------------------------------------------------
+# collections
+
+def collection_merge(s, docs, strict, allow_incomplete=True, ctx=None, how='strings'):
+    """Build a MosCollection from document texts and merge it under the
+    monitors.  Returns (mc|None, construct_exc|None, merge_exc|None, warnings)."""
+    import warnings as W
+    from .. import events as EV
+    import mosromgr.moscollection as mcmod
+    EV.STATE['quiet'] = EV.STATE.get('quiet', 0) + 1
+    try:
+        try:
+            mc = mcmod.MosCollection.from_strings(list(docs), allow_incomplete=allow_incomplete)
+        except Exception as e:
+            return None, e, None, []
+    finally:
+        EV.STATE['quiet'] -= 1
+    with W.catch_warnings(record=True) as wl:
+        W.simplefilter('always')
+        EV.STATE['quiet'] = EV.STATE.get('quiet', 0) + 1
+        try:
+            mc.merge(strict=strict)
+            err = None
+        except Exception as e:
+            err = e
+        finally:
+            EV.STATE['quiet'] -= 1
+    s.drain_and_judge(None, ctx)
+    return mc, None, err, wl
+
+
+def subset_cases(S, level, story_ref=None, nmax=4):
+    """C06: messages naming n elements, every subset of them unresolvable /
+    duplicate.  Yields (kind, kwargs, n, mask)."""
+    import itertools
+    from ..build import BLANK
+    idk = 'ids'
+    for n in range(1, min(nmax, max(len(S), 1)) + 1):
+        for mask in itertools.product((0, 1, 2), repeat=n):      # 0 ok, 1 unknown, 2 blank
+            if mask.count(2) > 1:
+                continue
+            named = []
+            avail = list(S)
+            for k, mk in enumerate(mask):
+                if mk == 0:
+                    if not avail:
+                        break
+                    named.append(avail.pop(0))
+                elif mk == 1:
+                    named.append('zz-unk-%d' % k)
+                else:
+                    named.append(BLANK)
+            else:
+                rest = avail
+                if level == 'story':
+                    yield 'roStoryDelete', dict(ids=named), n, mask
+                    yield 'EAStoryDelete', dict(ids=named), n, mask
+                    for t in (rest[:1] + [BLANK]):
+                        yield 'EAStoryMove', dict(ids=named, target=t), n, mask
+                else:
+                    yield 'roItemDelete', dict(story_ref=story_ref, ids=named), n, mask
+                    yield 'EAItemDelete', dict(story_ref=story_ref, ids=named), n, mask
+                    for t in (rest[:1] + [BLANK]):
+                        yield 'roItemMoveMultiple', dict(story_ref=story_ref, ids=named, target=t), n, mask
+                        yield 'EAItemMove', dict(story_ref=story_ref, ids=named, target=t), n, mask
+    if level == 'story':
+        # inserts: every subset of the carried stories duplicates an existing one
+        for n in range(1, nmax + 1):
+            for mask in itertools.product((0, 1), repeat=n):
+                carried = []
+                ex = list(S)
+                ok = True
+                for k, mk in enumerate(mask):
+                    if mk:
+                        if not ex:
+                            ok = False
+                            break
+                        carried.append(gen.simple_story(ex.pop(), 1))
+                    else:
+                        carried.append(gen.simple_story('new%d' % k, 1))
+                if not ok:
+                    continue
+                for t in (list(S)[:1] + list(S)[-1:] + [BLANK]):
+                    yield 'EAStoryInsert', dict(target=t, carried=[B.clone(c) for c in carried]), n, mask
+                    if t is not BLANK:
+                        yield 'roStoryInsert', dict(target=t, carried=[B.clone(c) for c in carried]), n, mask
